@@ -28,7 +28,7 @@ ID = "C07"
 TECHNIQUE = "Hypothesis-generated projects x worker count x file->worker partition x completion order, with a harness-owned fork-per-worker executor; real process pool (library and CLI subprocess) as a second stage; oracle = sequential run on a fresh object, multiset of full records"
 RULE = (
     "case = project of n files (per-file seeds of several rules in py/ts/js/rs + duplicate-code and repeated-string sets "
-    "spanning files) x workers w in 1..16 x n in {2w-2,2w-1,2w,2w+1,3w} x partition of files over workers x completion "
+    "spanning files, lines with several findings equal in every reported field, non-code files with file-placement findings) x workers w in 1..16 x n in {2w-2,2w-1,2w,2w+1,3w} x partition of files over workers x completion "
     "permutation. Non-trivial: n >= 2w (parallel path taken), permutation not identity, sequential result has >=1 cross-file "
     "and >=1 per-file violation. Distinct = (kind, w, n-2w, rule families, inversion bucket, partition shape)."
 )
